@@ -4,6 +4,7 @@
 #include "core/simalloc.h"
 #include "core/driver.h"
 #include <sys/mman.h>
+#include <unistd.h>
 extern "C" {
 #include "a/crc.h"
 #include "a/hash.h"
@@ -465,9 +466,31 @@ struct UtfSim
         c.st.add("probe.string_object_counter");
         return okk;
     }
+    // thorough tier only: 2^32 + 5 one-byte characters.  The bytes must be non-zero (a NUL ends the count), so zero pages will
+    // not do; one 2 MiB block of 'a' in a memory file is mapped 2049 times back to back - 4 GiB of address space, 2 MiB resident
+    void count_4g()
+    {
+        size_t const CH = (size_t)2 << 20, NCH = 2049, N = ((size_t)1 << 32) + 5;
+        int fd = memfd_create("liba-verif-utf", 0);
+        if (fd < 0) { c.st.add("probe.utf_4GiB_text_not_mappable"); return; }
+        unsigned char *base = nullptr; bool okm = ftruncate(fd, (off_t)CH) == 0;
+        if (okm) { void *w = mmap(nullptr, CH, PROT_READ | PROT_WRITE, MAP_SHARED, fd, 0); if (w == MAP_FAILED) okm = false; else { memset(w, 'a', CH); munmap(w, CH); } }
+        if (okm) { void *rsv = mmap(nullptr, CH * NCH, PROT_NONE, MAP_PRIVATE | MAP_ANONYMOUS | MAP_NORESERVE, -1, 0); if (rsv == MAP_FAILED) okm = false; else base = (unsigned char *)rsv; }
+        for (size_t i = 0; okm && i < NCH; ++i) if (mmap(base + i * CH, CH, PROT_READ, MAP_SHARED | MAP_FIXED, fd, 0) == MAP_FAILED) okm = false;
+        close(fd);
+        if (!okm) { if (base) munmap(base, CH * NCH); c.st.add("probe.utf_4GiB_text_not_mappable"); return; }
+        a_size stop = 0;
+        c.site("a_utf_length");
+        a_size const n = a_utf_length(base, N, &stop);
+        munmap(base, CH * NCH);
+        c.steps += 1; c.st.add("probe.utf_text_longer_than_4GiB");
+        if (n != N || stop != N) c.fail("length-counter-wrong", "a_utf_length", "a text of %zu one-byte characters counts as %zu characters, stopping at byte %zu", N, (size_t)n, (size_t)stop);
+        c.obs((uint64_t)n);
+    }
     void exec(Plan const &p)
     {
         SA.reset();
+        if (p.knob("huge4g", 0)) { count_4g(); return; }
         corrupt_cfg = p.knob("corrupt", 0) != 0;
         size_t const ncp = (size_t)(mag64(p.knob("ncp", 8)) % (p.knob("ascii", 0) ? 200 : 41));
         uint64_t const cs = (uint64_t)p.knob("cpseed", 1);
@@ -572,6 +595,7 @@ struct StreamEngine : Engine
             p.set("sys", 1);
             p.set("corrupt", r.chance(1, 3)); p.set("ascii", r.chance(1, 5)); p.set("ncp", (int64_t)r.geolen(0, p.knob("ascii") ? 199 : 40)); p.set("cpseed", (int64_t)r.below(1u << 30));
             bool const corrupt = p.knob("corrupt") != 0;
+            if (tier && r.chance(1, 4000000)) { p.set("huge4g", 1); p.ops.clear(); return p; }
             int64_t const nops = r.geolen(1, 80);
             bool const with_trunc = r.chance(1, 3);
             for (int64_t i = 0; i < nops; ++i)
